@@ -2,7 +2,7 @@
    unit, list, prod, sumbool, sumor map to OCaml's; nat, positive, N, Z stay
    the extracted inductives (no Extract Constant of our own). *)
 Require Import ExtrOcamlBasic.
-Require Import Tok TokGrammar CborSpec CborEnc.
+Require Import Tok TokGrammar CborSpec CborEnc CborDec CborParse.
 Extraction Language OCaml.
 Extraction "model.ml" Z.add Z.mul Z.div_eucl Z.of_nat Z.to_nat Z.eqb Z.ltb
-   flatten unflatten enc_tokens rfc_enc.
+   flatten unflatten enc_tokens rfc_enc dec_run parse_item.
